@@ -515,6 +515,15 @@ def run(ctx: Ctx) -> int:
             )
     ctx.floor("C06.f-prefix-tests", n_pref, 2)
 
+    # ---------------- C06.g: the "nothing but spec keys" test looks at the keys of the value itself ---------------------------
+    iss = ctx.func("_typehints:is_subclass_spec")
+    vp6 = iss.args.args[0].arg
+    gk = [c for c in calls_in(iss) if call_leaf(c) == "getattr" and len(c.args) == 3 and const_str(c.args[1]) == "__dict__"]
+    for c in gk:
+        ok = isinstance(c.args[0], ast.Name) and c.args[0].id == vp6 and isinstance(c.args[2], ast.Name) and c.args[2].id == vp6
+        ctx.oblige("C06.g", ok, c, "for a plain dict the keys tested are the dict's own keys" if ok else f"`{ast.unparse(c)}` falls back to `{ast.unparse(c.args[2])}` for a value without __dict__: for a plain dict the 'only class_path / init_args / dict_kwargs / __path__' test is vacuous, {{'class_path': .., 'init_args': .., 'zz': 5}} counts as a class spec and the foreign key zz is silently dropped", fn=iss)
+    ctx.floor("C06.g-spec-keys", len(gk), 1)
+
     return ctx.finish(
         explanation=(
             "Path and ownership checks: in validate.check_values every path for a key without action raises NSKeyError or takes one of the two documented skips "
